@@ -3,6 +3,7 @@ import OpusProofs.RangeCoderStageA2
 import OpusProofs.RangeCoderBudget
 import OpusProofs.RangeCoderPatchRun
 import OpusProofs.RangeCoderLockstep3
+import OpusProofs.RangeCoderFlags
 /-
   Property C08 — "Range coder: the decoder inverts the encoder symbol for symbol, within budget".
 
@@ -218,6 +219,40 @@ example : LegalRunP 2 (encOp (encInit (List.replicate 6 255) 6) (.encodeBin 2 3 
     (encodeAll (List.replicate 6 255) 6 (.encodeBin 2 3 2 :: examplePatched)).error = 0 ∧
     0 < (encodeAll (List.replicate 6 255) 6 (.encodeBin 2 3 2 :: examplePatched)).storage ∧
     lastPatch 2 examplePatched = 3 := by decide +kernel
+
+/-- The SILK header flags (silk/enc_API.c:346-351 and 527-539, silk/dec_API.c:226-234).  The encoder's
+    first call is the placeholder `ec_enc_icdf(0, {256 - (256 >> k), 0}, 8)` with
+    `k = (nFramesPerPacket + 1) * nChannelsInternal ∈ 1..8`; the VAD/LBRR flags are written later with
+    `ec_enc_patch_initial_bits(flags, k)`.  The decoder does NOT mirror these calls: it reads `k`
+    single bits with `ec_dec_bit_logp(·, 1)`.  Theorem: for any legal continuation `rest` (with any
+    number of patches), if `ec_enc_done` leaves `error = 0`, the decoder's `k` bit reads return the bits
+    of the last patched `flags` value most significant first (`bitsOps`; zeros if never patched), every
+    operation of `rest` then decodes to the encoded value, the decoder's error flag stays clear and it
+    ends with the encoder's `rng` and `nbits_total`.  (Subsumes C09's `lbrr_flag_position`, which is the
+    statement about the decoder alone.) -/
+theorem silk_flags_roundtrip (buf : List Nat) (size k : Nat) (rest : List Op) (hs : size ≤ buf.length)
+    (hb : BytesOk buf) (hk1 : 1 ≤ k) (hk8 : k ≤ 8)
+    (hl : LegalRunP k (encOp (encInit buf size) (.icdf 0 (flagTable k) 8)) rest)
+    (hnb : (encodeAll buf size (.icdf 0 (flagTable k) 8 :: rest)).nbitsTotal < 4294967296)
+    (herr : (encodeAll buf size (.icdf 0 (flagTable k) 8 :: rest)).error = 0) :
+    let e := encodeAll buf size (.icdf 0 (flagTable k) 8 :: rest)
+    let r := decRun (decInit (e.buf.take e.storage) e.storage) (bitsOps (lastPatch 0 rest) k ++ rest)
+    MatchAll (bitsOps (lastPatch 0 rest) k ++ rest) r.1 ∧ r.2.error = 0 ∧
+    r.2.rng = (encRun (encInit buf size) (.icdf 0 (flagTable k) 8 :: rest)).rng ∧
+    r.2.nbitsTotal = (encRun (encInit buf size) (.icdf 0 (flagTable k) 8 :: rest)).nbitsTotal := by
+  intro e r
+  have h := decode_encode_flags_all buf size k rest hs hb hk1 hk8 hl hnb herr
+  exact ⟨h.1, h.2.err, h.2.rc.rng_eq, h.2.rc.nbits_eq⟩
+
+/-- Mono, two frames per packet: `k = 3`; the flags `VAD0 VAD1 LBRR = 1 0 1` are patched in at the end. -/
+def exampleSilk : List Op :=
+  [.icdf 2 [200, 100, 50, 0] 8, .uint 12 100, .bitLogp 1 2, .encode 3 4 9, .patchInitial 5 3]
+
+example : LegalRunP 3 (encOp (encInit (List.replicate 8 0) 8) (.icdf 0 (flagTable 3) 8)) exampleSilk ∧
+    (encodeAll (List.replicate 8 0) 8 (.icdf 0 (flagTable 3) 8 :: exampleSilk)).error = 0 ∧
+    bitsOps (lastPatch 0 exampleSilk) 3 = [.bitLogp 1 1, .bitLogp 0 1, .bitLogp 1 1] ∧
+    (decRun (decInit ((encodeAll (List.replicate 8 0) 8 (.icdf 0 (flagTable 3) 8 :: exampleSilk)).buf.take 8) 8)
+      (bitsOps 5 3 ++ exampleSilk)).1 = [1, 0, 1, 2, 12, 1, 3, 0] := by decide +kernel
 
 /-! ## Stage D — budget and memory -/
 
